@@ -29,8 +29,8 @@ Ltac bools :=
   | H : Z.leb _ _ = true |- _ => apply Z.leb_le in H
   | H : Z.eqb _ _ = true |- _ => apply Z.eqb_eq in H
   end.
-Ltac proj := cbn [T L nextg cst ctl held fin failed wheld readers gid glock gk gpan gerr gfr
-                  wT set_cst set_ctl set_held set_fin set_gfr do_drop acquire release] in *.
+Ltac proj := cbn [T L nextg cst ctl held fin cunw swal failed wheld readers gid glock gk gpan gerr gfr
+                  wT set_cst set_ctl set_held set_fin set_cancel_unw set_caught set_gfr do_drop acquire release] in *.
 (* case analysis on the index of an updated map *)
 Ltac upds :=
   repeat match goal with
@@ -123,8 +123,9 @@ Qed.
 Section Inv.
 Variable isco : nat -> bool.
 Variable ismutex : nat -> bool.
-Notation step := (step isco ismutex).
-Notation Reach := (Reach isco ismutex).
+Variable fixd : bool.
+Notation step := (step isco ismutex fixd).
+Notation Reach := (Reach isco ismutex fixd).
 
 Definition rg (l : nat) (g : guard) : bool := Nat.eqb (glock g) l && negb (has_flag (gk g)).
 
@@ -157,6 +158,10 @@ Record Inv (s : st) : Prop := {
   J6 : forall t, fin (T s t) <> None -> held (T s t) = [] /\ ctl (T s t) = [];
   (* a panic on top of an unwinding without a catch_unwind in between would have aborted *)
   J8 : forall t, noadj (ctl (T s t));
+  (* the mark of the cancel panic: set while a cancellation unwinds; later the task has ended or has swallowed it *)
+  J9 : forall t ins, In (CUnw MCancel ins) (ctl (T s t)) -> cunw (T s t) = true;
+  J10 : forall t, cunw (T s t) = true ->
+        (exists ins, In (CUnw MCancel ins) (ctl (T s t))) \/ swal (T s t) = true \/ fin (T s t) <> None;
   (* guards are of the lock's kind *)
   J7 : forall t g, In g (held (T s t)) -> kind_ok ismutex (glock g) (gk g) = true
 }.
